@@ -107,3 +107,26 @@ lemma("fresh_ids_are_unique", [("n", INT)],
 
 undecided("that the shelved transform removes exactly the selected changes and unshelving restores them (ShelfCreator/Unshelver over tree transforms and serialised records: external)")
 undecided("the pattern 'shelf-([1-9][0-9]*)' itself (regular expressions are outside the encoding): IdOf/Name agreement is assumed and cross-checked natively")
+
+# ---- ShelfCreator.shelve_change: every change offered by iter_shelvable is shelved by the one method for its kind (once); an unknown
+#      kind is refused, never dropped
+SC = cls("ShelfCreator", fields={})
+for _m in ("shelve_rename", "shelve_deletion", "shelve_creation", "shelve_content_change", "shelve_modify_target"):
+    assumed("self." + _m, result=NONE, raises={"Exception": "unchanged"}, requires=lambda c: c.args[0] == c.change[1])
+exceptions(ValueError="Exception")
+
+
+target("breezy/shelf.py::ShelfCreator.shelve_change", params=dict(change=Tup(STR, BYTES)),
+       ensures={"dispatched_to_the_method_of_its_kind_exactly_once": lambda c: lift(
+           c.calls("self.shelve_rename") + c.calls("self.shelve_deletion") + c.calls("self.shelve_creation")
+           + c.calls("self.shelve_content_change") + c.calls("self.shelve_modify_target") == 1),
+                "rename": lambda c: Implies(c.old.change[0] == lift("rename"), lift(c.calls("self.shelve_rename") == 1)),
+                "deletion": lambda c: Implies(c.old.change[0] == lift("delete file"), lift(c.calls("self.shelve_deletion") == 1)),
+                "creation": lambda c: Implies(c.old.change[0] == lift("add file"), lift(c.calls("self.shelve_creation") == 1)),
+                "content": lambda c: Implies(Or(c.old.change[0] == lift("change kind"), c.old.change[0] == lift("modify text")),
+                                             lift(c.calls("self.shelve_content_change") == 1)),
+                "target": lambda c: Implies(c.old.change[0] == lift("modify target"), lift(c.calls("self.shelve_modify_target") == 1))},
+       raises={"ValueError": lambda c: Not(Or(*[c.old.change[0] == lift(k_) for k_ in ("rename", "delete file", "add file", "change kind",
+                                                                                    "modify text", "modify target")])),
+               "Exception": True},
+       canary=lambda c: lift(c.calls("self.shelve_rename") == 1))
